@@ -3079,6 +3079,15 @@ def inline_new_helpers(repo, full_ref):
                         raise _Refuse("receiver rebound")
                     mapping[recv_param] = recv or "self"
                 caller_names = {n for n, _ in _bound_names(fi.node)[0]} | set(fi.params)
+                # x = h(...) where every return of h hands back the same local L, and x is bound here for the first and only time:
+                # L *is* x (the accumulator the helper fills is the caller's variable)
+                if form == "assign" and isinstance(st.targets[0], ast.Name):
+                    rets_ = [x for x in ast.walk(h.node) if isinstance(x, ast.Return)]
+                    tg_ = st.targets[0].id
+                    if rets_ and all(isinstance(x.value, ast.Name) for x in rets_) and len({x.value.id for x in rets_}) == 1 and rets_[0].value.id in h_locals \
+                            and rets_[0].value.id not in params and tg_ not in params and tg_ not in h_locals \
+                            and sum(1 for x in walk_own(fi.node) if isinstance(x, ast.Name) and x.id == tg_ and isinstance(x.ctx, (ast.Store, ast.Del))) == 1:
+                        mapping[rets_[0].value.id] = tg_
                 for n in sorted(h_locals | {p_ for p_ in call_params if p_ not in mapping}):
                     if n in caller_names and n not in mapping:
                         mapping[n] = n + "__h"
@@ -3114,6 +3123,8 @@ def inline_new_helpers(repo, full_ref):
                 mod = ast.Module(body=prelude + new, type_ignores=[])
                 ast.fix_missing_locations(mod)
                 fresh = _drop_noops(ast.parse(ast.unparse(_SubstNames(mapping).visit(mod)).replace("_TGT_", tgt or "_") or "pass").body) or [ast.Pass()]
+                fresh = [s_ for s_ in fresh if not (isinstance(s_, ast.Assign) and len(s_.targets) == 1 and isinstance(s_.targets[0], ast.Name) and isinstance(s_.value, ast.Name)
+                                                    and s_.targets[0].id == s_.value.id)] or [ast.Pass()]
                 if vaname is not None:
                     for s_ in fresh:
                         for y in ast.walk(s_):
